@@ -89,18 +89,47 @@ Proof.
   - unfold strip_quotes. apply valid_removelast. destruct s; [constructor|]. inversion H; assumption.
 Qed.
 
+(* stated for an arbitrary rule list so that the kernel never unfolds the grammar table while checking it *)
+Lemma lex_one_gen (rules : list (kind * shape)) inp k skip lexeme rest :
+  lex_one_with rules inp = Some (k, skip, lexeme, rest) ->
+  exists sh n, In (k, sh) rules /\ match_shape sh inp = Some n /\ lexeme = firstn n inp /\ rest = skipn n inp.
+Proof.
+  unfold lex_one_with. intros H.
+  destruct (best_rule rules inp None) as [[[k' sh] n]|] eqn:E; [|discriminate]. inversion H; subst.
+  apply best_rule_in in E. destruct E as [E|[Hin Hm]]; [discriminate|].
+  exists sh, n. auto.
+Qed.
+
+Lemma lex_one_unfold inp : lex_one inp = lex_one_with lexer_rules inp.
+Proof. reflexivity. Qed.
+
+Lemma rule_tokok inp k sh n : valid_codepoints inp -> In (k, sh) lexer_rules -> match_shape sh inp = Some n ->
+  tokok {| tk := k; tx := firstn n inp |}.
+Proof.
+  intros Hv Hin Hm.
+  unfold tokok. cbn [tk tx]. split; [|split].
+  - intros ->. rewrite (rule_integer _ Hin) in Hm. apply digits_tok. exact Hm.
+  - intros ->. rewrite (rule_name _ Hin) in Hm. apply name_tok. exact Hm.
+  - intros _. apply text_value_valid. apply valid_firstn. exact Hv.
+Qed.
+
 Lemma lex_one_tokok inp k skip lexeme rest : valid_codepoints inp ->
   lex_one inp = Some (k, skip, lexeme, rest) ->
   tokok {| tk := k; tx := lexeme |} /\ valid_codepoints rest.
 Proof.
-  intros Hv H. unfold lex_one in H.
-  destruct (best_rule lexer_rules inp None) as [[[k' sh] n]|] eqn:E; [|discriminate]. inversion H; subst.
-  split; [|apply valid_skipn; exact Hv].
-  apply best_rule_in in E. destruct E as [E|[Hin Hm]]; [discriminate|].
-  unfold tokok. cbn [tk tx]. split; [|split].
-  - intros ->. rewrite (rule_integer _ Hin) in Hm. apply digits_tok. exact Hm.
-  - intros ->. rewrite (rule_name _ Hin) in Hm. apply name_tok. exact Hm.
-  - intros _. apply text_value_valid, valid_firstn. exact Hv.
+  intros Hv H. rewrite lex_one_unfold in H. apply lex_one_gen in H. destruct H as (sh & n & Hin & Hm & -> & ->).
+  split; [|apply valid_skipn; exact Hv]. eapply rule_tokok; eassumption.
+Qed.
+
+Lemma lex_cons_inv c inp ts : lex (c :: inp) = LOk ts ->
+  exists k skip lexeme rest ts', lex_one (c :: inp) = Some (k, skip, lexeme, rest) /\ lex rest = LOk ts'
+    /\ ts = (if skip then ts' else {| tk := k; tx := lexeme |} :: ts').
+Proof.
+  rewrite lex_step.
+  destruct (lex_one (c :: inp)) as [[[[k skip] lexeme] rest]|]; [|discriminate].
+  destruct (lex rest) as [ts'| |] eqn:E2; try discriminate.
+  intros H. inversion H; subst. exists k, skip, lexeme, rest, ts'.
+  split; [reflexivity|]. split; [exact E2|reflexivity].
 Qed.
 
 Theorem lex_tokok : forall inp ts, valid_codepoints inp -> lex inp = LOk ts -> Forall tokok ts.
@@ -108,11 +137,9 @@ Proof.
   intros inp. remember (length inp) as len eqn:Hlen. revert inp Hlen.
   induction len as [len IH] using lt_wf_ind. intros inp Hlen ts Hv H.
   destruct inp as [|c inp']; [inversion H; constructor|].
-  rewrite lex_step in H.
-  destruct (lex_one (c :: inp')) as [[[[k skip] lexeme] rest]|] eqn:E; [|discriminate].
+  apply lex_cons_inv in H. destruct H as (k & skip & lexeme & rest & ts' & E & E2 & ->).
   destruct (lex_one_tokok _ _ _ _ _ Hv E) as [Ht Hr].
   destruct (lex_one_shorter _ _ _ _ _ E) as [Hs _].
-  destruct (lex rest) as [ts'| |] eqn:E2; try discriminate.
-  assert (Hts' : Forall tokok ts') by (apply (IH (length rest) ltac:(lia) rest eq_refl ts' Hr E2)).
-  inversion H; subst. destruct skip; [exact Hts'|constructor; assumption].
+  assert (Hts' : Forall tokok ts') by (apply (IH (length rest) ltac:(subst len; exact Hs) rest eq_refl ts' Hr E2)).
+  destruct skip; [exact Hts'|constructor; assumption].
 Qed.
